@@ -23,6 +23,10 @@ type C06Case struct {
 	Dmg    wvlib.DamageOpts `json:"damage_opts"`
 	Shape  string           `json:"shape,omitempty"` // "" | valid | empty | missing
 	Damage []string         `json:"damage,omitempty"`
+	// ManyDirs/ManyLinks: extra directories and symlinks in the signed build (more structural wounds than the
+	// wounds channel holds when the target is empty or missing)
+	ManyDirs  int `json:"many_dirs,omitempty"`
+	ManyLinks int `json:"many_links,omitempty"`
 }
 
 func treeCanonLines(b *wvlib.Build) string {
@@ -44,6 +48,15 @@ func treeCanonLines(b *wvlib.Build) string {
 func c06One(env *Env, m *wvlib.Model, c *C06Case) {
 	r := wvlib.NewRng(c.Seed)
 	b := wvlib.GenBuild(r, c.Opts)
+	for i := 0; i < c.ManyDirs; i++ {
+		b.Entries = append(b.Entries, wvlib.BEntry{Path: fmt.Sprintf("many/d%02d/e%04d", i%7, i), Kind: 'd'})
+	}
+	for i := 0; i < c.ManyLinks; i++ {
+		b.Entries = append(b.Entries, wvlib.BEntry{Path: fmt.Sprintf("many/l%04d", i), Kind: 'l', Dest: "d00"})
+	}
+	if c.ManyDirs+c.ManyLinks > 0 {
+		b.Normalize()
+	}
 	base := env.Scratch.Sub("c06")
 	defer os.RemoveAll(base)
 	sig, err := signBuild(base+"/signed", b)
@@ -184,7 +197,7 @@ func c06One(env *Env, m *wvlib.Model, c *C06Case) {
 	// ---- model (the sequential schedule). A directory replaced by a symlink makes the outcome depend on
 	// how validator and healer interleave (entries reached through the symlink are judged healthy, then the
 	// healer replaces the symlink): that case is compared by the oracle only.
-	if c.Shape != "missing" && dmgClass != "dir->symlink-to-moved-copy" {
+	if c.Shape != "missing" && dmgClass != "dir->symlink-to-moved-copy" && c.ManyDirs+c.ManyLinks <= 200 {
 		sl, dl := base+"/signed.lst", base+"/disk.lst"
 		writeSignedListing(sl, sig.Container, b, env.Scratch)
 		writeDiskListing(dl, before)
@@ -220,7 +233,7 @@ func c06One(env *Env, m *wvlib.Model, c *C06Case) {
 
 func runC06(env *Env) {
 	R := env.R
-	R.Rule = "random builds (nested dirs, symlinks, empty files) x damage sequences as in C05 plus kind swaps hiding subtrees (dir->file, dir->symlink to a moved copy, file->non-empty dir), an empty and a missing target directory, already-valid trees; healed with the real archive healer from a zip of the signed build; distinct by seed; non-trivial = the directory needed healing"
+	R.Rule = "random builds (nested dirs, symlinks, empty files) x damage sequences as in C05 plus kind swaps hiding subtrees (dir->file, dir->symlink to a moved copy, file->non-empty dir), an empty and a missing target directory (also for builds with > 1024 directories + symlinks: more structural wounds than the wounds channel holds), already-valid trees; healed with the real archive healer from a zip of the signed build; distinct by seed; non-trivial = the directory needed healing"
 	if env.Replay != "" {
 		var c C06Case
 		replayCase(env, &c)
@@ -251,6 +264,13 @@ func runC06(env *Env) {
 		}
 		cases[i] = c
 	}
+	// more structural wounds than the 1024-slot wounds channel holds
+	for _, mm := range [][2]int{{1100, 0}, {900, 200}, {1000, 24}} {
+		for _, sh := range []string{"missing", "empty"} {
+			cases = append(cases, &C06Case{Seed: rng.Next(), Opts: wvlib.PairOpts{MaxFiles: 3, Symlinks: true, SmallOnly: true}, Shape: sh, ManyDirs: mm[0], ManyLinks: mm[1]})
+		}
+	}
+	n = len(cases)
 	models := startModels(env)
 	wvlib.ParallelDo(n, env.Workers, func(i int) {
 		m := <-models
